@@ -175,6 +175,10 @@ def run(ck, a):
     else:
       spec = models.tree_model(rng, words[1:], free_root=False, root_word=words[0], ortho=False, limits_p=0.0, actuators=1, joint_props=True)
     dyn_models.append((spec, words, free))
+  # several kinematic trees in one model (a world-attached tree before the last tree)
+  two = models.merge_specs([models.tree_model(rng, ['h'], free_root=False, root_word='h', ortho=False, limits_p=0.0, joint_props=True),
+                            models.tree_model(rng, [], free_root=False, root_word='hs', ortho=False, limits_p=0.0, joint_props=True)])
+  dyn_models.append((two, ['two-trees:h.h+hs'], False))
   for spec, words, free in dyn_models:
     spec['custom'] = EXACT_INV
     xml = models.to_xml(spec)
